@@ -1,9 +1,9 @@
 #!/bin/bash
-# usage: evalagent.sh <ID> [extra checks...] : evaluates /tmp/mut/<ID>/out/m{1,2,3}.diff in parallel
+# usage: evalagent.sh <ID> [extra checks...] : evaluates ${MUT:-/tmp/mut}/<ID>/out/m{1,2,3}.diff in parallel
 id=$1; shift
 for k in 1 2 3; do
-  d=/tmp/mut/$id/out/m$k.diff
+  d=${MUT:-/tmp/mut}/$id/out/m$k.diff
   [ -f $d ] || continue
-  ./evalmut.sh $d /tmp/mut/$id/out/m${k}_demo.py ${id}_m$k $id "$@" &
+  ./evalmut.sh $d ${MUT:-/tmp/mut}/$id/out/m${k}_demo.py ${id}_m$k $id "$@" &
 done
 wait
